@@ -148,6 +148,8 @@ def t06_delta(run, fx):
 
 
 def check(run, fx, tier, floors=True):
+    import bsearch
+    bsearch.rule_bsearch(run, fx, "T06-BS", select=lambda b: b.file.startswith(('src/tables/cmap.rs', 'src/font.rs', 'src/macroman.rs', 'src/big5.rs')), floors=floors, floor_n=0)
     import ignored
     ignored.run_for(run, fx, 'C06', floors)
     if floors or any(b.path == "tables::cmap::Format4::glyph_id_for_id_range_offset" for b in fx.bodies):
